@@ -119,6 +119,43 @@ def localDir : List (Option Loader) → Option Str
       | some (.loc d) => some d
       | _ => none
 
+/-! ## nested loads on the heap vs. the functional origin model -/
+
+/-- one nested load: model `i` includes `p` (± `project_directory`), or a service of model `i` extends from file `ref` -/
+inductive NStep where
+  | incl (i : Nat) (p : Str) (pd : Option Str)
+  | ext (i : Nat) (ref : Str)
+deriving Repr
+
+/-- nested loads ON THE HEAP: `models` = the models loaded so far (loader list + the `Level` the functional model
+threads).  `incl i p pd`: the local loader's directory is READ OFF THE HEAP (the last local loader of the list, as
+`loader.Load` / `loader.Dir` / the `baseDir` loop see it), `includeLevel` computes the child's directories, the child's
+list is derived with `childLoaders` and the child becomes a model of its own.  `ext i ref`: `getExtendsBaseFromFile`
+derives a list anchored at the extended file's directory for the load of that file (`SkipInclude`, `SkipExtends`: it
+loads nothing further) and drops it. -/
+def runIncl (isDir : Str → Bool) (h : Heap) (models : List (GoSlice × Level)) : List NStep → Heap × List (GoSlice × Level)
+  | [] => (h, models)
+  | .incl i p pd :: rest =>
+    let m := models.getD i (none, ⟨[], []⟩)
+    let lwH := (localDir (read h m.1)).getD []
+    let st' := (includeLevel isDir ⟨lwH, m.2.cw⟩ p pd).2
+    let c := childLoaders h m.1 st'.lw
+    runIncl isDir c.1 (models ++ [(c.2, st')]) rest
+  | .ext i ref :: rest =>
+    let m := models.getD i (none, ⟨[], []⟩)
+    let lwH := (localDir (read h m.1)).getD []
+    let c := childLoaders h m.1 (dir (absIn lwH ref))
+    runIncl isDir c.1 models rest
+
+/-- the same on the functional model (`Model/PathsOrigin.lean`): the level of the referring model is the one it was
+created with; an `extends` creates no model -/
+def runInclF (isDir : Str → Bool) (models : List Level) : List NStep → List Level
+  | [] => models
+  | .incl i p pd :: rest =>
+    let m := models.getD i ⟨[], []⟩
+    runInclF isDir (models ++ [(includeLevel isDir ⟨m.lw, m.cw⟩ p pd).2]) rest
+  | .ext _ _ :: rest => runInclF isDir models rest
+
 /-! ## the variant that returns a sub-slice (what a "no need to copy" rewrite of `RemoteResourceLoaders` does) —
 kept for `Neg/C12.lean`: it shares the parent's array, and the child's `append` overwrites the parent's local loader -/
 
